@@ -244,14 +244,15 @@ func init() {
 		s := schedC05(c)
 		o := prog.DefaultOpts()
 		o.PredPct, o.FallbackPct = 30, 30
-		g := genPart(c, "C05", c.pick(40, 500), c.pick(40, 500), o, 1, "ok,pred,fault,panic,cancel,goexit", c.pick(3, 8), false,
+		g := genPart(c, "C05", c.pick(40, 500), c.pick(40, 500), o, 1, "ok,pred,fault,panic,cancel,goexit,emitgx", c.pick(3, 8), false,
 			"at least one user function was called (every execution must return; stuck-state detector as in Engine S)")
 		both(c, s, g)
 	}
 	checks["C06"] = func(c *ctx) {
 		s := schedC06(c)
 		o := prog.DefaultOpts()
-		g := genPart(c, "C06", c.pick(40, 500), c.pick(40, 500), o, 1, "ok,fault,panic,cancel,conc,goexit,nest", c.pick(3, 8), false,
+		o.InstrPct = 60 // (emitgx scenarios need programs with emitters)
+		g := genPart(c, "C06", c.pick(40, 500), c.pick(40, 500), o, 1, "ok,fault,panic,cancel,conc,goexit,nest,emitgx", c.pick(3, 8), false,
 			"at least one user function was called; after every execution the process must return to its goroutine baseline")
 		both(c, s, g)
 	}
